@@ -58,6 +58,7 @@ def run_shard(spec):
         return decision(spec)
 
     def after(ctx, rng, desc):
+        from vf import scen
         r = ctx.cpu.registers
         if ctx.cfg['arch_version'] >= 7:
             r.sctlr.u = 1
@@ -74,6 +75,15 @@ def run_shard(spec):
                                          0x40000000, 0xFFDFF000, 0x1FFC, 0xFFC]) + rng.choice([0, 0, 4, -4, 2, 1]))
             desc['ld'] = True
             return
+        # the TTBR0 / TTBR1 split moved (TTBCR.N) with both base registers on the same first-level table: every address
+        # translates exactly as before, through whichever register the split selects; TEX remap off/on does not matter to
+        # the outcome of an access either (it changes memory attributes only)
+        if rng.random() < 0.4:
+            r.ttbcr.value = rng.choice([1, 2, 3, 7])
+            r.ttbr1 = scen.L1_TABLE
+            if hasattr(r, 'ttbr1_64'):
+                r.ttbr1_64 = scen.L1_TABLE
+            desc['ttbcr_n'] = r.ttbcr.value
         # addresses inside the virtual windows the harness maps (vf/scen.py _program_mmu)
         for n in range(13):
             if rng.random() < 0.7:
